@@ -25,16 +25,16 @@ OPS = ["+", "*", "star", "plus", "reverse", "rename", "renumber"]
 
 
 def plan(tier, seed):
-    return common.plan_shards(tier, seed, n_quick=110, n_thorough=1000, budget_quick=30, budget_thorough=300)
+    return common.plan_shards(tier, seed, n_quick=200, n_thorough=1000, budget_quick=30, budget_thorough=300)
 
 
 def gates(tier):
     k = 1 if tier == "quick" else 10
     return {
-        "min_decided": {a: 2000 * k for a in APIS} | {"constants": 500 * k, "rename/renumber": 500 * k},
+        "min_decided": {a: 2000 * k for a in APIS} | {"constants": 500 * k, "rename/renumber": 500 * k, "operand purity": 500 * k},
         "shapes": {c: 5 * k for c in ["eps_arc", "multi_initial", "multi_final", "initial_and_final", "depth:3", "sr:Q",
                                       "sr:Boolean", "sr:MaxTimes", "sr:Real", "sr:Float", "op:star", "op:plus", "op:*", "op:+",
-                                      "op:reverse", "const:from_strings", "const:lift", "const:zero", "const:one"]},
+                                      "op:reverse", "const:from_strings", "const:lift", "const:zero", "const:one", "from_strings:prefix-member"]},
         "min_hashseeds": 2,
     }
 
@@ -49,7 +49,13 @@ def gen_expr(rng, depth, nops):
             if kind == "from_string":
                 return ["const", "from_string", [rng.choice("ab") for _ in range(rng.randint(0, 3))], Fr(rng.randint(1, 4), 8)], 0.5
             if kind == "from_strings":
-                ss = sorted({tuple(rng.choice("ab") for _ in range(rng.randint(0, 3))) for _ in range(rng.randint(1, 3))})
+                ss = {tuple(rng.choice("ab") for _ in range(rng.randint(0, 3))) for _ in range(rng.randint(1, 3))}
+                if rng.random() < 0.6:  # a member that is a proper prefix of another member
+                    longest = max(ss, key=len)
+                    if longest:
+                        ss.add(longest[: rng.randrange(len(longest))])
+                ss = list(ss)
+                rng.shuffle(ss)  # the order of the members must not matter
                 return ["const", "from_strings", [list(s) for s in ss]], float(len(ss))
             return ["const", kind], (0.0 if kind == "zero" else 1.0)
         return ["A", rng.randrange(nops)], 0.25
@@ -176,10 +182,21 @@ def run_case(case, ctx):
     def w(x):
         return lib.lib_weight(R, x, 0)
 
+    operand_objs = {}
+
+    def snapshot(A):
+        return (sorted((repr(q), repr(w)) for q, w in A.start.items()), sorted((repr(q), repr(w)) for q, w in A.stop.items()),
+                sorted((repr(i), repr(a), repr(j), repr(w)) for i, a, j, w in A.arcs()))
+
     def build(e):
         k = e[0]
         if k == "A":
-            return lib.build_wfsa(case["operands"][e[1]], R, cls=cls_)
+            # ONE library object per operand, shared by every occurrence in the expression and across the
+            # sub-expression builds of this case (operations must not change their operands)
+            if e[1] not in operand_objs:
+                A = lib.build_wfsa(case["operands"][e[1]], R, cls=cls_)
+                operand_objs[e[1]] = (A, snapshot(A))
+            return operand_objs[e[1]][0]
         if k == "const":
             kind = e[1]
             proto = cls_(Rcls)
@@ -228,6 +245,10 @@ def run_case(case, ctx):
             return
         if e[0] == "const":
             ctx.shape[f"const:{e[1]}"] += 1
+            if e[1] == "from_strings":
+                ms = [tuple(x) for x in e[2]]
+                if any(a != b and b[: len(a)] == a for a in ms for b in ms):
+                    ctx.shape["from_strings:prefix-member"] += 1
         else:
             ctx.shape[f"op:{e[0]}"] += 1
         c2 = dict(case, sub=e)
@@ -255,6 +276,12 @@ def run_case(case, ctx):
                 ctx.check(api, same(v, want[x]), f"{name}/value", dict(c2, x=list(x)), {"x": list(x), "have": v, "want": lib.want_value(R, want[x])})
 
     visit(case["expr"])
+    # operands after all operations: same arcs, same language
+    for k, (A, before) in operand_objs.items():
+        c2 = dict(case, operand=k)
+        after = snapshot(A)
+        ctx.check("operand purity", after == before, "operation-changed-its-operand", c2,
+                  {"operand": k, "arcs_before": len(before[2]), "arcs_after": len(after[2])})
 
 
 def run(spec, ctx):
